@@ -260,7 +260,7 @@ def gen_label_scenario(rng, tier='quick'):
             st.append(['org', num(at[0]), None])
             if rng.random() < 0.5:
                 st.append(['label', g + '_b'])          # a new region after the origin: what follows is fine again
-        loc = rng.choice(['.t', '.x'])
+        loc = rng.choice(['.t', '.x', '.nop', '.jmp', '.lea'])      # local labels may contain a mnemonic
         order = rng.random()
         if order < 0.45:
             # reference directly behind the non-local label, definition later in the region
@@ -277,7 +277,7 @@ def gen_label_scenario(rng, tier='quick'):
     fault = 'label-lines'
     if rng.random() < 0.15:
         # a reference to a local label that only an earlier region defines
-        st += [['label', 'last'], ref(rng.choice(['.t', '.x']))]
+        st += [['label', 'last'], ref(rng.choice(['.t', '.x', '.nop']))]
         fault = 'label-lines-foreign-local'
     return {'cfg': cfg, 'files': [{'name': 'main.asm', 'dir': 'src', 'stmts': st}], 'include_dirs': ['lib'], 'extra_files': [],
             'fault': fault, 'opts': _opts(rng, cfg)}
